@@ -133,6 +133,12 @@ func main() {
 		matrixRegister(mc)
 		corpus = append(corpus, mc.c)
 	}
+	// … followed by the operand-validation-on-the-unused-path class
+	nMatrixEnd := len(corpus)
+	unused := buildUnusedPath()
+	for _, u := range unused {
+		corpus = append(corpus, u.c)
+	}
 	nGen := f.N(50000, 3000000)
 	if f.Tier == "thorough" {
 		bigDiv = 12
@@ -154,7 +160,7 @@ func main() {
 		var ints []*big.Int
 		var iop opcode.Opcode
 		switch {
-		case k >= nCorpus && k < len(corpus):
+		case k >= nCorpus && k < nMatrixEnd:
 			// one matrix case: plain run, and wrapped in TRY if it faults (catchable or not)
 			mc := matrix[k-nCorpus]
 			res := emit(k, mc.c)
@@ -168,6 +174,15 @@ func main() {
 			matrixRecord(mc, outcome, res.ran[mc.op])
 			o.Count("gen:matrix")
 			o.Seen(seenKey(mc.c))
+			continue
+		case k >= nMatrixEnd && k < len(corpus):
+			u := unused[k-nMatrixEnd]
+			res := emit(k, u.c)
+			if u.wrap && !res.halt {
+				emit(k, wrapTry(u.c))
+			}
+			o.Count("gen:unused-path")
+			o.Seen(seenKey(u.c))
 			continue
 		case k < len(corpus):
 			c = corpus[k]
